@@ -58,22 +58,28 @@ func c04Run(t gen.TB, w *gen.World, desc string, keyHint string) {
 				return
 			}
 		} else if vs.Accepted() {
-			// must be one of the listed levels' statuses
+			// the reported level must be one of the levels the algorithm selected (platform level, or the module level)
 			ok := false
-			for _, l := range w.TcbInfo.Levels {
-				if string(tl.TcbStatus) == l.Status {
-					ok = true
-				}
+			want := []string{}
+			if m.PlatformLevel >= 0 {
+				want = append(want, w.TcbInfo.Levels[m.PlatformLevel].Status)
 			}
-			for _, id := range w.TcbInfo.Identities {
-				for _, l := range id.Levels {
-					if string(tl.TcbStatus) == l.Status {
-						ok = true
+			if m.ModuleBranch && m.ModuleLevel >= 0 {
+				wantID := "TDX_" + gen.Hex([]byte{w.Q.TeeTcbSvn[1]})
+				for _, id := range w.TcbInfo.Identities {
+					if id.ID == wantID {
+						want = append(want, id.Levels[m.ModuleLevel].Status)
+						break
 					}
 				}
 			}
+			for _, st := range want {
+				if string(tl.TcbStatus) == st {
+					ok = true
+				}
+			}
 			if !ok {
-				gen.Fail(t, gen.Violation{Key: "supported-levels-unlisted", Oracle: "the reported level is one of the listed levels", Detail: fmt.Sprintf("%s: %+v", desc, tl), Replay: rp})
+				gen.Fail(t, gen.Violation{Key: "supported-levels-not-the-selected-level", Oracle: "the reported TCB level is the level the selection algorithm picks", Detail: fmt.Sprintf("%s: reported status %q, selected %v", desc, tl.TcbStatus, want), Replay: rp})
 				return
 			}
 		}
